@@ -9,11 +9,13 @@ import sbc_common as SC
 from common import prove
 
 THEOREMS = ["Matid.Props.C02.sbc_single_cluster", "Matid.SBC.driver_single_crystal", "Matid.SBC.localize_id_of_disjoint", "Matid.SBC.clean_connected"]
-TRUSTED = ["Lean 4 kernel", "axioms: propext, Classical.choice, Quot.sound at most",
+TRUSTED = ["stage models of the finder (SbcEntry, SpanGraph, BestBasis, AdaptiveCell, WithinBasis, ProtoAssemble, ProtoDecision, Region) with their theorems as obligations; tied by recorded-call correspondence in THIS run: the answers of sub-functions modelled elsewhere (get_matches, get_matches_simple, get_positions_within_basis, _find_best_basis inside the span-graph replay) are recorded and handed to the model as oracle data (recorders in harness/sbc_common.py, harness/region_model.py)", "rule translators gen_sbc_rule / gen_proto_rule / gen_region_rule / gen_assemble_rule / gen_dim_rule (AST facts; a harmless refactoring can flip one)",
+           "Lean 4 kernel", "axioms: propext, Classical.choice, Quot.sound at most",
            "the pipeline model of C01 (tied there by correspondence)", "contract F on the periodic finder: SAMPLED on the family, not proved"]
 EXPL = ("Conditional Lean theorem (sbc_single_cluster): for every seed, RNG stream, merge threshold and merge radius, IF the finder returns all atoms as "
-        "basis atoms (contract F) and the bonding graph is connected, the pipeline returns exactly one complete cluster. No theorem about the 1 700-line "
-        "heuristic finder is attempted; contract F and the property itself are sampled on members of the stated family that pass the independent "
+        "basis atoms (contract F) and the bonding graph is connected, the pipeline returns exactly one complete cluster. Each stage of the finder has its own model and theorems "
+        "(entry glue, span loop and atom networks, basis choice, per-copy cells, cell search, basis assembly, acceptance tree, region tracking), tied by recorded-call "
+        "correspondence in this run; no theorem about the interplay of the stages on a real crystal is attempted: contract F and the property itself are sampled on members of the stated family that pass the independent "
         "bonding/overlap precondition. A sample where F fails but the property holds is counted, not alarmed.")
 
 
